@@ -35,6 +35,30 @@ Definition line_ok (l : line) (pts : list (Z * Z)) : bool :=
    then seq_ok di dj (sgn_to i0 i1) (sgn_to j0 j1) 0 (map (fun p => (fst p - i0, snd p - j0)) pts)
    else seq_ok dj di (sgn_to j0 j1) (sgn_to i0 i1) 0 (map (fun p => (snd p - j0, fst p - i0)) pts)).
 
+(* declarative reading of "exact Bresenham sequence" *)
+Definition LineSpec (l : line) (pts : list (Z * Z)) : Prop :=
+  let '((i0, j0), (i1, j1)) := l in
+  let di := Z.abs (i1 - i0) in
+  let dj := Z.abs (j1 - j0) in
+  Z.of_nat (length pts) = Z.max di dj + 1 /\
+  nth 0 pts (i0 - 1, j0) = (i0, j0) /\
+  last pts (i1 - 1, j1) = (i1, j1) /\
+  forall n, (n < length pts)%nat ->
+    let p := nth n pts (0, 0) in
+    let k := Z.of_nat n in
+    (* the major coordinate advances by exactly one per point, the minor one stays within half
+       a pixel of the ideal segment *)
+    (dj <= di -> fst p = i0 + sgn_to i0 i1 * k /\
+                 Z.abs (2 * (di * (snd p - j0) - sgn_to j0 j1 * (dj * k))) <= di) /\
+    (di < dj -> snd p = j0 + sgn_to j0 j1 * k /\
+                Z.abs (2 * (dj * (fst p - i0) - sgn_to i0 i1 * (di * k))) <= dj) /\
+    (* and moves by 0 or by one step towards the end point *)
+    ((S n < length pts)%nat ->
+      let q := nth (S n) pts (0, 0) in
+      (dj <= di -> snd q = snd p \/ snd q = snd p + sgn_to j0 j1) /\
+      (di < dj -> fst q = fst p \/ fst q = fst p + sgn_to i0 i1)).
+
+
 Definition slice {A} (start : nat) (len : nat) (l : list A) : list A := firstn len (skipn start l).
 
 (* the batch clause: output block k is a correct line for request k, blocks are laid out by
